@@ -101,6 +101,11 @@ def run_stream_check(pid, tier, cases, case_fn, rule, assumptions, level="explor
            "not_evaluable_examples": notok, "info": info}
     if extra_cov:
         cov.update(extra_cov)
+    if level == "model_checking":
+        # a history (case) is a state of the enumeration, every API call / scheduling decision inside it a transition
+        cov["states"] = len(res)
+        cov["transitions"] = sum((o.get("points") or 0) for _, o in res) or len(res)
+        cov["traces_validated_against_impl"] = sum(1 for _, o in res if o["status"] == "ok")
     return ck.finish(cov, assumptions)
 
 
